@@ -3593,6 +3593,13 @@ def propagate_tuple_locals(fn, accessors=()):
                     and all(isinstance(t, ast.Name) for t in n.targets[0].elts) and all(isinstance(v, ast.Name) for v in n.value.elts) \
                     and not ({t.id for t in n.targets[0].elts} & {v.id for v in n.value.elts}):
                 return [ast.copy_location(ast.Assign(targets=[ast.Name(id=t.id, ctx=ast.Store())], value=v), n) for t, v in zip(n.targets[0].elts, n.value.elts)]
+            # `a, b = xs[0]` (an entry of a list of pairs, read twice without effect) is `a = xs[0][0]; b = xs[0][1]`
+            if len(n.targets) == 1 and isinstance(n.targets[0], ast.Tuple) and all(isinstance(t, ast.Name) for t in n.targets[0].elts) and isinstance(n.value, ast.Subscript) \
+                    and isinstance(n.value.value, ast.Name) and isinstance(n.value.slice, ast.Constant) and isinstance(n.value.slice.value, int) \
+                    and n.value.value.id not in {t.id for t in n.targets[0].elts}:
+                return [ast.copy_location(ast.Assign(targets=[ast.Name(id=t.id, ctx=ast.Store())],
+                                                     value=ast.Subscript(value=copy.deepcopy(n.value), slice=ast.Constant(value=i), ctx=ast.Load())), n)
+                        for i, t in enumerate(n.targets[0].elts)]
             return n
     fn = Split().visit(fn)
     ast.fix_missing_locations(fn)
